@@ -9,10 +9,16 @@ OMD_q == {R(1, 2)}               OMD_full == {One, R(1, 2), R(5, 4)}
 POL_q == {RI(-1), Zero, R(1, 3)} POL_full == {RI(-1), R(-1, 2), Zero, R(1, 3), One}
 ZM(n) == [fns |-> "ZM-VFNS", nfff |-> 4, nfzm |-> n]
 
-Points ==
-  {[proc |-> p, proj |-> j, kind |-> k, flav |-> fl, nf |-> n, s2w |-> s, r |-> r, omd |-> o, pol |-> pl, ckm |-> ck, rexp |-> e] :
+Pt(p, j, k, fl, n, s, r, o, pl, ck, e) ==
+  [proc |-> p, proj |-> j, kind |-> k, flav |-> fl, nf |-> n, s2w |-> s, r |-> r, omd |-> o, pol |-> pl, ckm |-> ck, rexp |-> e]
+Points0 ==
+  {Pt(p, j, k, fl, n, s, r, o, pl, ck, 0) :
      p \in PROCS, j \in {11, -11, 12, -12}, k \in KINDS, fl \in FLAVS, n \in NFZM,
-     s \in S2W, r \in RR, o \in OMD, pl \in POL, ck \in CKMS, e \in {0, 16}}
+     s \in S2W, r \in RR, o \in OMD, pl \in POL, ck \in CKMS}
+PointsTiny ==
+  {Pt(p, j, k, fl, n, s, r, o, Zero, "generic", 16) :
+     p \in PROCS \cap {"NC"}, j \in {12, -12}, k \in KINDS, fl \in FLAVS, n \in NFZM,
+     s \in S2W, r \in RR \ {Zero}, o \in OMD}
 \* canonical points only: EM/NC do not depend on the CKM, CC not on the EW point
 Canon(pt) == /\ (pt.proc # "CC" => pt.ckm = "generic")
              /\ (pt.proc = "CC" => /\ pt.s2w = (CHOOSE s \in S2W : TRUE) /\ pt.r = (CHOOSE r \in RR : TRUE)
@@ -29,5 +35,8 @@ Obligation(pt) ==
   LET c == CellOf(pt) IN
   [pt |-> pt, ckm2 |-> CkmOf(pt.ckm), indomain |-> C02Domain(c),
    expect |-> [i \in 1..13 |-> TextbookLO(c, PidSeq[i])]]
-ASSUME ndJsonSerialize(IOEnv.OUT, SetToSeq({Obligation(pt) : pt \in {q \in Points : Canon(q)}}))
+\* (the two point sets are filtered lazily and only the obligations are united: a union of the point sets themselves makes TLC
+\* normalise half a million records)
+ASSUME ndJsonSerialize(IOEnv.OUT, SetToSeq({Obligation(pt) : pt \in {q \in Points0 : Canon(q)}}
+                                            \cup {Obligation(pt) : pt \in {q \in PointsTiny : Canon(q)}}))
 =============================================================================
